@@ -34,9 +34,9 @@ CONSTANTS Input,      \* receiver -> sequence of [fr |-> Beast frame, dec |-> BO
           DMutant,    \* "none" | "table_after_filter" | "no_filter" | "no_skew_bound" | "print_first_only"
           DedupMutant \* Mutant of Dedup.tla
 
-VARIABLES ppos, pbuf, pat, pclock, ppend, pnext, precs, ptab, pw, pcfg,
+VARIABLES ppos, pbuf, pat, pclock, ppend, pnext, precs, ptab, pw, pcfg, pchk, pwire, pends,
           dhist, dcache, dheap, dnow, dout, ddropped
-pvars == <<ppos, pbuf, pat, pclock, ppend, pnext, precs, ptab, pw, pcfg>>
+pvars == <<ppos, pbuf, pat, pclock, ppend, pnext, precs, ptab, pw, pcfg, pchk, pwire, pends>>
 dvars == <<dhist, dcache, dheap, dnow, dout, ddropped>>
 
 RX == DOMAIN Input
@@ -49,26 +49,32 @@ D == INSTANCE Dedup WITH Bad <- PBad, TicksPerMs <- 1, Mutant <- DedupMutant,
                          w <- pw, hist <- dhist, cache <- dcache, heap <- dheap,
                          now <- dnow, out <- dout, dropped <- ddropped
 
+(* pwire, pends never change: the streams and the frames' end offsets, kept *)
+(* in the state because TLC does not cache definitions that use RECURSIVE   *)
+(* operators                                                                 *)
 Init == /\ pw \in WSet /\ pcfg \in CfgSet
+        /\ pwire = [r \in RX |-> WireOf(r)]
+        /\ pends = [r \in RX |-> [p \in DOMAIN Input[r] |-> EndOfs(r, p)]]
         /\ ppos = [r \in RX |-> 0] /\ pbuf = [r \in RX |-> <<>>]
         /\ pat = [r \in RX |-> [p \in DOMAIN Input[r] |-> INF]]
         /\ pclock = 0 /\ ppend = [r \in RX |-> <<>>]
-        /\ pnext = 0 /\ precs = <<>> /\ ptab = <<>>
+        /\ pnext = 0 /\ precs = <<>> /\ ptab = <<>> /\ pchk = TRUE
         /\ D!InitW(pw)
 
 Deliver(r, n) ==
-  /\ n > ppos[r] /\ n <= Len(WireOf(r))
-  /\ LET chunk == SubSeq(WireOf(r), ppos[r] + 1, n)
+  /\ n > ppos[r] /\ n <= Len(pwire[r])
+  /\ LET chunk == SubSeq(pwire[r], ppos[r] + 1, n)
          res == BST!Process("scan", pbuf[r] \o chunk, <<>>)
      IN /\ pbuf' = [pbuf EXCEPT ![r] = res[1]]
         /\ ppend' = [ppend EXCEPT ![r] = @ \o [q \in DOMAIN res[2] |-> [fr |-> res[2][q], t |-> pclock]]]
   /\ pat' = [pat EXCEPT ![r] = [p \in DOMAIN Input[r] |->
-                IF EndOfs(r, p) > ppos[r] /\ EndOfs(r, p) <= n THEN pclock ELSE @[p]]]
+                IF pends[r][p] > ppos[r] /\ pends[r][p] <= n THEN pclock ELSE @[p]]]
   /\ ppos' = [ppos EXCEPT ![r] = n]
-  /\ UNCHANGED <<pclock, pnext, precs, ptab, pw, pcfg>> /\ UNCHANGED dvars
+  /\ pchk' = FALSE
+  /\ UNCHANGED <<pclock, pnext, precs, ptab, pw, pcfg, pwire, pends>> /\ UNCHANGED dvars
 
-Tick == /\ pclock < TMax /\ pclock' = pclock + 1
-        /\ UNCHANGED <<ppos, pbuf, pat, ppend, pnext, precs, ptab, pw, pcfg>> /\ UNCHANGED dvars
+Tick == /\ pclock < TMax /\ pclock' = pclock + 1 /\ pchk' = FALSE
+        /\ UNCHANGED <<ppos, pbuf, pat, ppend, pnext, precs, ptab, pw, pcfg, pwire, pends>> /\ UNCHANGED dvars
 
 DedupArrive(r) ==
   /\ ppend[r] # <<>>
@@ -77,10 +83,10 @@ DedupArrive(r) ==
           \A r2 \in RX \ {r} : ppend[r2] # <<>> => y.t < Head(ppend[r2]).t + Skew
      /\ D!Insert([id |-> Len(dhist) + 1, f |-> Payload(y.fr), t |-> y.t,
                   rx |-> [rx |-> r, id |-> IdOf(y.fr), t |-> y.t]])
-  /\ ppend' = [ppend EXCEPT ![r] = Tail(@)]
-  /\ UNCHANGED <<ppos, pbuf, pat, pclock, pnext, precs, ptab, pcfg>>
+  /\ ppend' = [ppend EXCEPT ![r] = Tail(@)] /\ pchk' = FALSE
+  /\ UNCHANGED <<ppos, pbuf, pat, pclock, pnext, precs, ptab, pcfg, pwire, pends>>
 
-Emit == D!Pop /\ UNCHANGED <<ppos, pbuf, pat, pclock, ppend, pnext, precs, ptab, pcfg>>
+Emit == D!Pop /\ pchk' = FALSE /\ UNCHANGED <<ppos, pbuf, pat, pclock, ppend, pnext, precs, ptab, pcfg, pwire, pends>>
 
 TabIdx(a) == {x \in DOMAIN ptab : ptab[x].icao = a}
 PrintRec ==
@@ -99,10 +105,10 @@ PrintRec ==
                    ELSE IF TabIdx(a) = {} THEN Append(ptab, [icao |-> a, count |-> 1, first |-> sec, last |-> sec])
                    ELSE LET x == CHOOSE z \in TabIdx(a) : TRUE
                         IN [ptab EXCEPT ![x] = [@ EXCEPT !.count = @ + 1, !.last = sec]]
-  /\ pnext' = pnext + 1
-  /\ UNCHANGED <<ppos, pbuf, pat, pclock, ppend, pw, pcfg>> /\ UNCHANGED dvars
+  /\ pnext' = pnext + 1 /\ pchk' = TRUE
+  /\ UNCHANGED <<ppos, pbuf, pat, pclock, ppend, pw, pcfg, pwire, pends>> /\ UNCHANGED dvars
 
-CutsFor(r) == Cuts[r] \cup {Len(WireOf(r))}
+CutsFor(r) == Cuts[r] \cup {Len(pwire[r])}
 Next == \/ \E r \in RX : \E n \in CutsFor(r) : Deliver(r, n)
         \/ \E r \in RX : DedupArrive(r)
         \/ Emit
@@ -118,10 +124,10 @@ AbsHolds == Viol = {}
 
 (* Only PrintRec changes what the clauses read in a way that can falsify    *)
 (* one (recs, tab); Deliver only adds send times (more candidate closers),   *)
-(* the other actions leave the observation untouched.  So the invariant is   *)
-(* checked as an action property on the PrintRec steps (and initially): the  *)
-(* clauses recompute parities, which is too costly for every state.          *)
-AbsStep == [][pnext' # pnext => Violations(InObs, pw, Skew, pcfg, precs, ptab, TRUE)' = {}]_<<pvars, dvars>>
+(* the other actions leave the observation untouched.  The clauses recompute *)
+(* parities, too costly for every state: pchk marks the states reached by    *)
+(* PrintRec (and the initial ones), where the invariant is evaluated.        *)
+AbsChecked == pchk => AbsHolds
 
 (* the inputs of the model are admissible (constant level: used in ASSUME)  *)
 InputAdmissible == InputOk([r \in RX |-> [p \in DOMAIN Input[r] |->
@@ -132,6 +138,6 @@ DedupInv == D!HeapCacheAgree /\ D!Conservation /\ D!RecordShape
 
 (* everything sent and closed is eventually visible: used as a reachability *)
 (* witness (the negation must be violated), not as a property               *)
-Quiescent == /\ \A r \in RX : ppos[r] = Len(WireOf(r)) /\ ppend[r] = <<>>
+Quiescent == /\ \A r \in RX : ppos[r] = Len(pwire[r]) /\ ppend[r] = <<>>
              /\ pnext = Len(dout) /\ D!Settled
 =============================================================================
